@@ -652,28 +652,55 @@ class SimSolver:
                     sh.add(*self._tracked)
                 if env.optimize_priority == "lex":
                     sh.add(*fixed)
-                best = None
-                for _ in range(120):
-                    r = self._budgeted(sh, RLIMIT_SUB)
-                    if r == _z3.unknown:
-                        best = None
-                        break
-                    if r == _z3.unsat:
-                        break
-                    v = sh.model().eval(expr, model_completion=True)
-                    if not _z3.is_int_value(v):
-                        best = None
-                        break
-                    best = v.as_long()
-                    sh.add(expr < best if kind == "min" else expr > best)
-                else:
-                    best = None
+                best = self._referee_optimum(sh, kind, expr)
                 out.append({"kind": kind, "reported": reported, "optimum": best})
                 if best is not None:
                     fixed.append(expr == best)
             ev["referee"] = out
         except _z3.Z3Exception:
             return
+
+    def _referee_optimum(self, sh, kind, expr):
+        """optimum of ``expr`` over the assertions of the plain solver ``sh`` (None when it cannot be
+        established): galloping steps from the first model, then bisection - the engine may start
+        thousands of units away from the optimum and come down one unit per model."""
+        sign = 1 if kind == "min" else -1      # work on sign*expr, always minimising
+
+        def value():
+            v = sh.model().eval(expr, model_completion=True)
+            return sign * v.as_long() if _z3.is_int_value(v) else None
+
+        r = self._budgeted(sh, RLIMIT_SUB)
+        if r != _z3.sat:
+            return None
+        best = value()
+        if best is None:
+            return None
+        lo = None          # sign*expr >= lo is established
+        step = 1
+        for _ in range(90):
+            if lo is not None and lo >= best:
+                return sign * best
+            target = best - step if lo is None else (lo + best - 1) // 2 if best - 1 > lo else lo
+            if lo is not None and target < lo:
+                target = lo
+            sh.push()
+            sh.add(sign * expr <= target)
+            r = self._budgeted(sh, RLIMIT_SUB)
+            if r == _z3.unknown:
+                sh.pop()
+                return None
+            if r == _z3.sat:
+                v = value()
+                sh.pop()
+                if v is None:
+                    return None
+                best = min(best, v)
+                step *= 2
+            else:
+                sh.pop()
+                lo = target + 1
+        return None
 
     def _alt_optimal(self, steer, ev):
         """Optimize with live objectives: after the real optimum, look for another model
@@ -842,6 +869,10 @@ class Env:
         for name, var in self.handle_vars().items():
             try:
                 v = _val(model, var)
+                if v is None and name.startswith("app:"):
+                    # "applied" flags of optional constraints the engine left out of its model:
+                    # the model's own completion (False) is what every assertion was checked under
+                    v = _z3.is_true(model.eval(var, model_completion=True))
             except _z3.Z3Exception:
                 v = None
             if v is not None:
